@@ -32,6 +32,8 @@ import (
 var c15Addrs = []string{
 	"alice@example.org", "alias@example.org", "bob@example.org", "ceo@victim.example",
 	"anyone@corp.example", "x@тест.example", "rené@example.org", "postmaster@example.org",
+	// domains that merely end in / contain an entitled domain
+	"ceo@notexample.org", "ceo@sub.example.org", "boss@mycorp.example", "boss@evil-corp.example", "x@нетест.example", "alice@example.org.victim.example",
 }
 
 var c15Users = []string{"alice@example.org", "bob@example.org", "carol@тест.example", "dave", "rené@example.org"}
